@@ -64,8 +64,13 @@ def gen_one(rng, k):
     nB = burst - 1 - nA
     if kind in ("not", "big", "share"):
         nA, nB = min(nA, 4), min(nB, 3)
-    return {"kind": kind, "smp": smp, "nw": nw, "size": size, "first": first, "cut": cut, "lw": w(),
-            "A": [w() for _ in range(nA)], "B": [w() for _ in range(nB)], "C": [w() for _ in range(rng.randrange(0, 3))]}
+    s = {"kind": kind, "smp": smp, "nw": nw, "size": size, "first": first, "cut": cut, "lw": w(),
+         "A": [w() for _ in range(nA)], "B": [w() for _ in range(nB)], "C": [w() for _ in range(rng.randrange(0, 3))]}
+    if kind == "tr_ch" and smp and sum(1 for x in s["A"] + s["B"] if x != s["lw"]) >= 2:
+        # several workers re-forward at the same instant after the cut and race for the Transients / memory-cache slot:
+        # which of their responses ends up cached (hence whether a late joiner is a hit) is not determined
+        s["C"] = []
+    return s
 
 
 def gen_scenarios(rng, n):
